@@ -42,6 +42,10 @@ def run(ctx, rep):
     from .effects_lib import check_pure_reachable
     check_pure_reachable(ctx, rpu, ["chartparse.sync.BPMEvents.timestamp_at_tick",
                                     "chartparse.sync.BPMEvents.timestamp_at_tick_no_optimize_return"])
+    rrf = rep.rule("resolution-field", "the resolution every tick-to-time conversion and tick distance uses is the integer written on "
+                                       "the [Song] Resolution line (converter int, digits-only capture)", floor=3)
+    from .C15 import check_resolution_field
+    check_resolution_field(ctx, rrf)
     rch = rep.rule("chain", "file -> lines (read().splitlines(), utf-8-sig) -> framing -> section route -> dispatcher -> builders: every link "
                             "hands the lines on unchanged", floor=10)
     from .chain import check_chain
